@@ -123,6 +123,9 @@ class _Sub(ast.NodeTransformer):
     visit_ListComp = visit_SetComp = visit_GeneratorExp = visit_DictComp = _comp
 
     def visit_Lambda(self, n):
+        # defaults are evaluated where the lambda is created
+        n.args.defaults = [self.visit(d) for d in n.args.defaults]
+        n.args.kw_defaults = [self.visit(d) if d is not None else None for d in n.args.kw_defaults]
         self.bound.append({a.arg for a in n.args.args + n.args.kwonlyargs})
         n.body = self.visit(n.body)
         self.bound.pop()
@@ -368,15 +371,18 @@ class PathEval:
                         p.env[k] = ast.Name(id=f"{k}__L{s.lineno}", ctx=ast.Load())
             # stores of the body: kept when every path through the body performs them
             # with the same value, otherwise marked conditional
-            allk = set()
-            for q in qs:
-                allk |= set(q.stores) - base_keys
-            for k in sorted(allk):
-                vals = [text(q.stores[k]) if k in q.stores else None for q in qs]
-                if all(v == vals[0] and v is not None for v in vals):
-                    p.stores[k] = qs[0].stores[k]
-                else:
-                    p.stores[k] = ast.Name(id="__conditional__", ctx=ast.Load())
+            for attr in ("stores", "named_stores"):
+                mine = getattr(p, attr)
+                base_k = set(mine) if attr == "named_stores" else base_keys
+                allk = set()
+                for q in qs:
+                    allk |= set(getattr(q, attr)) - base_k
+                for k in sorted(allk):
+                    vals = [text(getattr(q, attr)[k]) if k in getattr(q, attr) else None for q in qs]
+                    if all(v == vals[0] and v is not None for v in vals):
+                        mine[k] = getattr(qs[0], attr)[k]
+                    else:
+                        mine[k] = ast.Name(id="__conditional__", ctx=ast.Load())
             return self.block(s.orelse, out)
         if isinstance(s, ast.With):
             for it in s.items:
